@@ -1103,6 +1103,7 @@ func propC14Fixture(col *ev.Collector, honourKnown bool) func(cs c14FixtureCase)
 type c14AnyCase struct {
 	c14FixtureCase
 	c14RenderedCase
+	c14IncompleteCase
 }
 
 func propC14Any(col *ev.Collector) func(c c14AnyCase) (ev.Outcome, error) {
@@ -1112,6 +1113,9 @@ func propC14Any(col *ev.Collector) func(c c14AnyCase) (ev.Outcome, error) {
 		}
 		if c.c14RenderedCase.Format != "" {
 			return propC14Rendered(col, false)(c.c14RenderedCase)
+		}
+		if c.c14IncompleteCase.IncExtractor != "" {
+			return propC14Incomplete(col, false)(c.c14IncompleteCase)
 		}
 		return ev.Outcome{}, nil
 	}
